@@ -82,6 +82,8 @@ fn main() {
                     "c09" => (0..n).for_each(|i| {
                         // one body far above every buffer per 250 cases
                         if i % 250 == 7 { g::HUGE.with(|h| h.set(true)); }
+                        // an upgrade offer's body is the rest of the stream, taken up or not
+                        if i % 20 == 11 { cases.push(g::gen_upgrade(&mut rng)); return; }
                         cases.push(g::gen_body(&mut rng, true, false))
                     }),
                     "long" => (0..n).for_each(|i| cases.push(g::gen_long(&mut rng, i))),
@@ -105,6 +107,9 @@ fn main() {
                         }
                         for b in g::BAD_SILENT { classes.push(("silent", b.to_vec())); }
                         let reps = std::cmp::max(1, n / 100);
+                        for _ in 0..reps * 30 {
+                            cases.push(g::gen_refused_run(&mut rng));
+                        }
                         for _ in 0..reps {
                             for (cl, raw) in &classes {
                                 for pos in 0..4 {
